@@ -427,6 +427,8 @@ def run(ck):
     # every condition of the reference decoder that has a counterpart today keeps one (bounds and rejections are among them)
     from .. import condparity as _cp
     ck.floor("SIB/ref-conditions", _cp.check(ck, P, "SIB/ref-conditions", only={"inflate.c:inflate", "inffast_tpl.h:INFLATE_FAST", "inftrees.c:zng_inflate_table"}), 60)
+    from .. import guards as _g
+    _g.crc_fold_start(ck, P)
     from . import c20 as _c20
     _d = P.fn(decoders.DISPATCH)
     _regs = decoders.mode_regions(_d, 20) if _d else None
